@@ -36,6 +36,20 @@ def lemma_esum_pos(a: A[xfloat, 1], lo: int, hi: int, t: int):
         lemma_esum_nonneg(a, lo, hi - 1)
 
 
+@spec
+def PROPTO(pa: float, ea: float, pb: float, eb: float) -> bool:
+    """probabilities pa, pb are in the ratio of the weights ea, eb  (kept opaque: products of two
+    variables inside quantifiers defeat pattern-based instantiation)"""
+    return pa * eb == pb * ea
+
+
+@lemma(shared=True)
+def lemma_shares_proportional(pa: float, pb: float, S: float, ea: float, eb: float):
+    """two shares of one total are in the ratio of their weights"""
+    requires(finite(pa), finite(pb), finite(S), finite(ea), finite(eb), pa * S == ea, pb * S == eb)
+    ensures(pa * eb == pb * ea)
+
+
 @lemma(shared=True)
 def lemma_norm_sum(p: A[float, 1], l: A[xfloat, 1], S: float, lo: int, hi: int):
     """shares p_i = exp(l_i) / S add up to ESUM / S"""
